@@ -548,6 +548,34 @@ func deviationsFor(fs []wfield) []deviation {
 			}
 		}
 	}
+	// the field's *tag* written as an over-long varint (2, 3 and 5 bytes): still
+	// the same field number and wire type to every protobuf decoder
+	for i := 0; i < n; i++ {
+		for _, width := range []int{2, 3, 5} {
+			i, width := i, width
+			if width > 2 && fs[i].num != 1 && fs[i].num != 3 && fs[i].num != 7 {
+				continue // the wider spellings on DataType, FileSize and Mode only (cost)
+			}
+			out = append(out, deviation{fmt.Sprintf("padtag%d(%d)", width, i), func(fs []wfield) []wfield {
+				if i >= len(fs) {
+					return nil
+				}
+				_, _, tn := protowire.ConsumeTag(fs[i].raw)
+				if tn < 0 || tn >= width {
+					return nil
+				}
+				tag := append([]byte{}, fs[i].raw[:tn]...)
+				tag[len(tag)-1] |= 0x80
+				for len(tag) < width-1 {
+					tag = append(tag, 0x80)
+				}
+				tag = append(tag, 0x00)
+				o := append([]wfield{}, fs...)
+				o[i] = wfield{fs[i].num, fs[i].typ, append(tag, fs[i].raw[tn:]...)}
+				return o
+			}})
+		}
+	}
 	for i := 0; i < n; i++ {
 		i := i
 		if _, ok := nonMinimal(fs[i]); ok {
@@ -638,7 +666,7 @@ func permutations(n int, f func(p []int)) {
 }
 
 func runC09(r *core.Run) {
-	r.Rule("bounded-exhaustive: the full product of logical messages (6 types x 3 data x 7 file sizes x 4 block-size lists x 4 hash types x 4 fanouts x 6 modes x 6 mtimes = 290304) in canonical form; wire presentations = every sequence of <= 1 (all corpus messages) and <= 2 (quick: every 20th corpus message; thorough: all) deviations {field transposition, packed block sizes, unknown field of 4 numbers x 4 wire types at every position, non-minimal varint, reordered timestamp with unknown field} and all permutations for messages with <= 5 fields; oracle = gogo-protobuf codec of boxo's unixfs.proto (decode equality, reference decodes our encoding, canonical re-encode byte equality, permission bits); same for IPFSTimestamp and Metadata alone; plus messages constructed through the builder API")
+	r.Rule("bounded-exhaustive: the full product of logical messages (6 types x 3 data x 7 file sizes x 4 block-size lists x 4 hash types x 4 fanouts x 6 modes x 6 mtimes = 290304) in canonical form; wire presentations = every sequence of <= 1 (all corpus messages) and <= 2 (quick: every 20th corpus message; thorough: all) deviations {field transposition, packed block sizes, unknown field of 4 numbers x 4 wire types at every position, non-minimal varint, over-long tag varint, reordered timestamp with unknown field} and all permutations for messages with <= 5 fields; oracle = gogo-protobuf codec of boxo's unixfs.proto (decode equality, reference decodes our encoding, canonical re-encode byte equality, permission bits); same for IPFSTimestamp and Metadata alone; plus messages constructed through the builder API")
 	dims, build := c09Space()
 	total := c09Total(dims)
 	// 1. full product, canonical presentation
